@@ -1807,4 +1807,164 @@ Section Bridge.
     rewrite (proj2 (lookup_plain Henv h cn c (s2p "__name__") Hb Hf eq_refl eq_refl eq_refl)), (heap0_env Henv cn c _ Hf).
     reflexivity.
   Qed.
+
+  (* ---------------------------------------------------------------- the hypothesis of the serializer theorems is satisfiable *)
+
+  (* every FastSerializable class of the environment with its default serializer installed *)
+  Definition fast_heap1 : heap :=
+    fun o a =>
+      if pystr_eqb a a_serialize then
+        match find_tclass e o with
+        | Some c => if t_fast c then Some (serc o c (PBool false)) else None
+        | None => heap0 o a
+        end
+      else heap0 o a.
+
+  Lemma heap1_installed : env_ok = true -> heap_installed fast_heap1.
+  Proof.
+    intro Henv. split; [split|].
+    - intros o a H1 _. unfold fast_heap1. rewrite H1. reflexivity.
+    - intros o a Ho. unfold fast_heap1. rewrite Ho. destruct (pystr_eqb a a_serialize); reflexivity.
+    - intros cn c Hf Hfast. unfold fast_heap1. rewrite pystr_eqb_refl, Hf, Hfast. reflexivity.
+  Qed.
 End Bridge.
+
+(* ------------------------------------------------------------------ the theorems, for re-export (Props/C10.v)
+
+   src_create_eq        create_serializer(cls, compact, serialize_none) of the source = create_serializer of the model:
+                        the same exception class, and on success the heap [final_heap]: the class holds
+                        [installed cn c sn compact] (per field [getter_py]: the raw getter for Number / String / Boolean
+                        fields, the serializing getter for the others, under the mapped key) and
+                        _created_fast_serializer = True ([final_heap_cells])
+   src_create_fresh     the same from the heap in which nothing is created yet ([fast_heap0])
+   src_serializer_eq    calling the installed serializer on an instance = fast_ser ... compact:=false, with 2n units of
+                        dispatcher fuel for n class levels of the model
+   src_compact_eq       calling the compact wrapper = fast_ser ... compact:=true (2n + 1 units)
+   src_init_eq          FastSerializable.__init__: nothing when the class has a serializer of its own, else
+                        create_serializer(cls) with the default flags, then the next __init__
+   src_fs_serialize_eq  FastSerializable.serialize raises NotImplementedError
+   heap0_inv / heap1_installed   the heaps the theorems speak about exist
+
+   Side conditions (booleans; satisfied by env_fx below):
+     env_ok      no class of the environment is named like a class of the package or FastSerializable; LPrim is one
+                 of Number/Integer/Float/String/Boolean/NoneField; the object of an unmodelled field satisfies
+                 other_ok_fast; defaults are plain data; field names are distinct; MAPPED KEYS ARE DISTINCT (keys_of);
+                 a FastSerializable class refers directly only to FastSerializable classes of the environment
+                 (what create_serializer checks)
+     fits_env d  the depth fuel of _verify_is_fast_serializable exceeds the nesting of Array in every declaration
+     insts_ok    instances are instances of classes of the environment and carry no attribute named
+                 _additional_serialization
+   and "the model predicts": the model's result is not Raise Unmodelled (nor, for create_serializer, OutOfFuel: the
+   source does not re-create a serializer that exists, so it needs less fuel than the model). *)
+
+(* ------------------------------------------------------------------ the side conditions are satisfiable *)
+
+Lemma other_cat_fast : forall id b, other_ok_fast b (other_cat id b) = true /\ quiet 3 (other_cat id b) = true.
+Proof.
+  intros id b. unfold other_cat.
+  destruct b, (N.eqb id 12), (N.eqb id 13), (N.eqb id 14), (N.eqb id 16), (N.eqb id 17); vm_compute; split; reflexivity.
+Qed.
+
+Definition mkfc (n : string) (fs : list tfd) (m : mapper) (fast : bool) : tclass :=
+  {| t_name := s2p n; t_fields := fs; t_required := []; t_additional := true; t_ignore_none := false;
+     t_mapper := m; t_fast := fast |}.
+
+Definition env_fx : tenv :=
+  [ mkfc "In" [mkf "a" t_int; mkf "d" (TLeaf (LSer 3 true))] MapCamel true;
+    mkfc "NF" [mkf "a" t_int] MapNone false;
+    mkfc "K" [ mkf "i_x" t_int; mkf "r" (TRef (s2p "In")); mkf "ar" (TArray (TArray (TRef (s2p "In"))));
+               mkf "o" (TOpt false (TLeaf t_color)); mkf "s" (TSet (TRef (s2p "NF"))); mkf "n" (TLeaf (LPrim FNone));
+               mkf "m" (TOther 16 false); mkf "u" (TUnion [t_str; LPrim FNone]) ]
+        (MapDict [(s2p "i_x", MStr (s2p "k0"))]) true;
+    mkfc "One" [mkf "only" t_int] MapUpper true;
+    mkfc "B1" [mkf "x" (TArray (TRef (s2p "NF")))] MapNone false;
+    mkfc "B2" [mkf "x" (TOther 15 true)] MapNone true;
+    mkfc "B3" [mkf "x" (TUnion [t_str; t_color])] MapNone true;
+    mkfc "B4" [mkf "a" t_int] (MapDict [(s2p "a", MFun)]) true ].
+
+Definition no_oracle (_ : N) (_ : pyval) : res pyval := Raise Unmodelled.
+Definition ext_fx : extern := fast_ext other_cat no_oracle no_oracle env_fx (fun _ => PNone).
+Definition no_call : callfn := fun _ _ => Raise Unmodelled.
+Definition names_fx : list string := ["In"; "NF"; "K"; "One"; "B1"; "B2"; "B3"; "B4"]%string.
+Definition inst_in (z : Z) : pyval := PStruct (s2p "In") [(s2p "a", PNum (NInt z))].
+Definition inst_k : pyval :=
+  PStruct (s2p "K") [(s2p "i_x", PNum (NInt 3)); (s2p "r", inst_in 1); (s2p "ar", PList [PList [inst_in 2]]);
+                     (s2p "o", PEnum (s2p "Color") (s2p "RED") (PNum (NInt 1)))].
+Definition created (h : heap) (cn : string) (compact sn : bool) : heap :=
+  match src_create_serializer 4 4 no_call ext_fx h (ref (s2p cn)) (PBool compact) (PBool sn) PNone with
+  | Ok (h', _) => h'
+  | Raise _ => h
+  end.
+
+Definition cls_fx (n : string) : tclass :=
+  match find_tclass env_fx (s2p n) with Some c => c | None => mkfc "" [] MapNone false end.
+Definition inst_one : pyval := PStruct (s2p "One") [(s2p "only", PNum (NInt 7))].
+
+(* every hypothesis holds of this environment; the two sides compute to the same outcomes: created, TypeError (a class
+   reference without the mix-in, OneOf, a two-type AnyOf), ValueError (a FunctionCall mapper); the class holds the
+   serializer the theorems describe, the referenced class its default one; the installed serializers, applied through
+   the dispatcher, return the model's documents (a nested document; the bare value under compact) *)
+Example C10_fast_src_nonvacuous :
+  env_ok other_cat env_fx = true /\ fits_env other_cat env_fx 4 = true /\
+  insts_ok env_fx inst_k = true /\ insts_ok env_fx inst_one = true /\
+  map (fun cn => match src_create_serializer 4 4 no_call ext_fx (fast_heap0 other_cat env_fx) (ref (s2p cn))
+                                             (PBool false) (PBool false) PNone with
+                 | Ok _ => Ok tt | Raise x => Raise x end) names_fx =
+  [Ok tt; Ok tt; Ok tt; Ok tt; Raise TypeError; Raise TypeError; Raise TypeError; Raise ValueError] /\
+  map (fun cn => create_serializer env_fx 4 (s2p cn)) names_fx =
+  [Ok tt; Ok tt; Ok tt; Ok tt; Raise TypeError; Raise TypeError; Raise TypeError; Raise ValueError] /\
+  created (fast_heap0 other_cat env_fx) "K" true true (s2p "K") a_serialize =
+    Some (installed other_cat (s2p "K") (cls_fx "K") (PBool true) true) /\
+  created (fast_heap0 other_cat env_fx) "K" true true (s2p "In") a_serialize =
+    Some (installed other_cat (s2p "In") (cls_fx "In") (PBool false) false) /\
+  created (fast_heap0 other_cat env_fx) "K" true true (s2p "K") a_created = Some (PBool true) /\
+  src_apply 6 ext_fx (fast_heap1 other_cat env_fx) (ser_closure other_cat (s2p "K") (cls_fx "K") (PBool false)) [inst_k] =
+  fast_ser no_oracle no_oracle env_fx 3 false false (s2p "K") inst_k /\
+  fast_ser no_oracle no_oracle env_fx 3 false false (s2p "K") inst_k =
+  Ok (PDict [(PStr (s2p "k0"), PNum (NInt 3)); (PStr (s2p "r"), PDict [(PStr (s2p "a"), PNum (NInt 1))]);
+             (PStr (s2p "ar"), PList [PList [PDict [(PStr (s2p "a"), PNum (NInt 2))]]]); (PStr (s2p "o"), PStr (s2p "RED"))]) /\
+  src_apply 3 ext_fx (fast_heap1 other_cat env_fx)
+            (compact_closure (ser_closure other_cat (s2p "One") (cls_fx "One") (PBool false))) [inst_one] =
+  fast_ser no_oracle no_oracle env_fx 1 false true (s2p "One") inst_one /\
+  fast_ser no_oracle no_oracle env_fx 1 false true (s2p "One") inst_one = Ok (PNum (NInt 7)).
+Proof. vm_compute. repeat split; reflexivity. Qed.
+
+(* ------------------------------------------------------------------ where source and hand model part
+
+   TWO FIELDS MAPPED TO THE SAME KEY (_serialization_mapper = {"a": "x", "b": "x"}).  create_serializer keeps its
+   getters in a dict keyed by the mapped key, so the getter of the later field REPLACES the one of the earlier field:
+   the earlier field is never read.  The hand model (fast_fields) evaluates every field and lets the later value
+   override the earlier one in the document.  With a = "s" and b absent: the model says {"x": "s"} (b is None and is
+   dropped, a stays), the source says {} (only b's getter exists, its None is dropped) -- and {} is what typedpy
+   returns.  This is why the theorems ask for distinct mapped keys (class_ok / keys_of). *)
+Definition env_dup : tenv :=
+  [ mkfc "D" [mkf "a" (TLeaf t_str); mkf "b" t_int] (MapDict [(s2p "a", MStr (s2p "x")); (s2p "b", MStr (s2p "x"))]) true ].
+Definition inst_dup : pyval := PStruct (s2p "D") [(s2p "a", PStr (s2p "s"))].
+Definition ext_dup : extern := fast_ext other_cat no_oracle no_oracle env_dup (fun _ => PNone).
+
+Example C10_fast_src_duplicate_keys_witness :
+  env_ok other_cat env_dup = false /\
+  create_serializer env_dup 3 (s2p "D") = Ok tt /\
+  fast_ser no_oracle no_oracle env_dup 3 false false (s2p "D") inst_dup = Ok (PDict [(PStr (s2p "x"), PStr (s2p "s"))]) /\
+  match src_create_serializer 3 3 no_call ext_dup (fast_heap0 other_cat env_dup) (ref (s2p "D")) (PBool false) (PBool false) PNone with
+  | Ok (h, _) => match h (s2p "D") a_serialize with
+                 | Some f => src_apply 6 ext_dup h f [inst_dup]
+                 | None => Raise Unmodelled
+                 end
+  | Raise x => Raise x
+  end = Ok (PDict []).
+Proof. vm_compute. repeat split; reflexivity. Qed.
+
+Print Assumptions src_create_eq.
+Print Assumptions src_create_fresh.
+Print Assumptions final_heap_cells.
+Print Assumptions src_serializer_eq.
+Print Assumptions src_compact_eq.
+Print Assumptions src_init_eq.
+Print Assumptions src_fs_serialize_eq.
+Print Assumptions heap0_inv.
+Print Assumptions heap1_installed.
+Print Assumptions create_mono.
+Print Assumptions other_cat_fast.
+Print Assumptions C10_fast_src_nonvacuous.
+Print Assumptions C10_fast_src_duplicate_keys_witness.
